@@ -21,6 +21,7 @@ Definitions used in the statements (`Lemmas/DpLive*.lean`):
 -/
 import ProfiVerif.Lemmas.DpLiveRuns
 import ProfiVerif.Lemmas.DpLiveMaster
+import ProfiVerif.Lemmas.DpLiveMasterRun
 
 namespace PV.C07
 open PV PV.Dp PV.Live
@@ -304,8 +305,58 @@ bound the `C07` oracle applies to the real `DpMaster`. -/
 theorem master_turn {J : Joint} {p : Peripheral} (hS : Single J.m p) (hslot : J.slot = 0)
     (hg : Good ⟨J.fp, J.m.op, p, J.s⟩) (ha : J.s.cfg.address ≠ 127) {now : Int} (hnow : timeB now)
     (hgc : ∀ t, J.m.lastGc = some t → timeB t) (mid : Bool) {d : Delivery} (hd : ∀ t, d = .sub t → RxOk t) :
-    ∃ J' o, J.turn now mid d = .ok J' o ∧ TurnKind J p mid d J' o :=
+    ∃ J' o, J.turn now mid d = .ok J' o ∧ TurnKind J p now mid d J' o :=
   turn_single hS hslot hg ha hnow hgc mid hd
+
+/-- The bound in master turns: `2 (max_retry_limit + 8) + 1` turns that are not global-control
+broadcasts, i.e. `max_retry_limit + 8` DP cycles (one visit and one cycle-closing turn each) and one
+turn for a cycle that was just completed. -/
+def KM (fp : FdlParams) : Nat := 2 * K fp + 1
+
+/-- **master_live_from_everywhere.**  A `DpMaster` in Operate with one peripheral (slot 0) and the
+reference slave, in *any* state in which the pair is good and satisfies the joint invariant (`MGood`,
+`JInv`): for every sequence of fault-free `transmit_telegram` turns — at arbitrary times within ±2^62 µs,
+so global-control broadcasts may fall anywhere — the run does not panic or hang, and as soon as the
+sequence contains `2 (max_retry_limit + 8) + 1` turns that are not broadcasts the peripheral
+`is_running()`; since this holds for every such sequence, it stays so. -/
+theorem master_live_from_everywhere {J : Joint} {p : Peripheral} (hM : MGood J p) (hj : JInv (J.pj p))
+    (nows : List Int) (ht : ∀ t ∈ nows, timeB t) :
+    ∃ J' os p', J.quietTurns nows = some (J', os) ∧ os.length = nows.length ∧ Single J'.m p' ∧
+      (KM J.fp ≤ nonBroadcast os → p'.isRunning = true) := by
+  obtain ⟨J', os, p', v, evs, h1, hM', _, hlen, hq, hcount⟩ := quietTurns_visits nows ht hM
+  refine ⟨J', os, p', h1, hlen, hM'.single, ?_⟩
+  intro hk
+  have hcl : J.closing ≤ 1 := by unfold Joint.closing; split <;> omega
+  have hv : K (J.pj p).fp ≤ v := by
+    unfold KM K at hk; unfold K; simp only [Joint.pj]; omega
+  obtain ⟨j', evs', h2, h3⟩ := live_from_everywhere hM.good hj hv
+  rw [hq] at h2
+  simp only [Option.some.injEq, Prod.mk.injEq] at h2
+  rw [← h2.1] at h3
+  exact h3
+
+/-- Start-up at master level: a well-formed single-peripheral master (`MGood`) whose peripheral is fresh
+and whose slave was just powered on. -/
+structure MInitial (J : Joint) (p : Peripheral) : Prop where
+  good : MGood J p
+  init : Initial (J.pj p)
+
+/-- **master_live_after_any_history.**  From start-up, after *any* master-level history — turns with any
+delivery fault (request lost, reply lost, reply replaced by any well-formed telegram) and optional
+`request_diagnostics()` between request and reply, at any in-range times; slave power cycles; device fault
+reports; user calls — the run has not panicked, and in every fault-free continuation the peripheral
+`is_running()` once `2 (max_retry_limit + 8) + 1` non-broadcast turns have passed, and stays so. -/
+theorem master_live_after_any_history {J0 : Joint} {p0 : Peripheral} (h0 : MInitial J0 p0) (es : List JEnv)
+    (hw : ∀ e ∈ es, e.WellFormed) :
+    ∃ J p, J0.mrun es = some J ∧ Single J.m p ∧
+      ∀ (nows : List Int), (∀ t ∈ nows, timeB t) →
+        ∃ J' os p', J.quietTurns nows = some (J', os) ∧ Single J'.m p' ∧
+          (KM J0.fp ≤ nonBroadcast os → p'.isRunning = true) := by
+  obtain ⟨J, p, h1, hM, hfp, hj⟩ := mrun_good es hw h0.good (jinv_initial h0.init)
+  refine ⟨J, p, h1, hM.single, ?_⟩
+  intro nows ht
+  obtain ⟨J', os, p', h2, _, h3, h4⟩ := master_live_from_everywhere hM hj nows ht
+  exact ⟨J', os, p', h2, h3, by rw [← hfp]; exact h4⟩
 
 /-! ## Non-vacuity -/
 
@@ -331,5 +382,26 @@ example : (Ex.j0.quiet 5).map (fun r => (r.1.p.isRunning, r.2)) =
     some (true, [.online, .configured, .dataExchanged]) := by decide +kernel
 example : ((Ex.j0.run [.visit false .ok, .visit false .ok, .visit false .lossRep, .power, .visit true .lossReq]).bind
       fun r => (r.1.quiet 9).map fun r' => r'.1.p.isRunning) = some true := by decide +kernel
+
+/-- The same at master level: `DpMaster::new` over two slots, `add`, `enter_operate`. -/
+def Ex.J0 : Joint :=
+  match (Master.new 2 false).add Dp.Ex.p7 with
+  | .ok (m, i) => { fp := Dp.Ex.fp, m := m.enterOperate, s := Slave.init Witness.cfg [0xc0], slot := i }
+  | .panic => default
+
+theorem Ex.minitial : MInitial Ex.J0 Dp.Ex.p7 where
+  good :=
+    { single := ⟨⟨1, rfl⟩, rfl, Or.inl rfl⟩
+      slot := rfl
+      good := Ex.good
+      addr := by decide
+      gc := by intro t h; cases h }
+  init := Ex.initial
+
+/-- 16 fault-free master turns, 3 ms apart (the first is the global-control broadcast): the peripheral is
+running at the end. -/
+example : ((Ex.J0.quietTurns ((List.range 16).map fun (i : Nat) => ((1000 + 3000 * i : Nat) : Int))).map fun r =>
+    (((r.1.m.peripheral? 0).map Peripheral.isRunning), nonBroadcast r.2)) = some (some true, 15) := by
+  decide +kernel
 
 end PV.C07
